@@ -249,6 +249,5 @@ for _p in ("C04", "C17"):
                                   "reading of numpy basic indexing / leading integer-array indexing / broadcasting / in-order slice assignment / tensordot "
                                   "over a concrete axis / transpose; (4 alpha)^(l/2) and (2k-1)!! with symbolic l, k as opaque positive atoms built "
                                   "identically on the specification side; the Obara-Saika / HGP relations characterise the auxiliary integrals (tied to "
-                                  "the Boys-derivative specification by the per-shape contract up to total l = 8); one generic component row per shell "
-                                  "stands for all rows (rows only index; their broadcasting against each other is covered per shape); numbers of "
-                                  "primitives / segments are those of the harness shapes")
+                                  "the Boys-derivative specification by the per-shape contract up to total l = 8); numbers of primitives / segments / "
+                                  "component rows are those of the harness shapes")
